@@ -1,0 +1,25 @@
+//go:build verif
+
+// Machine-checked contracts for package cmd (comments only).
+// Read by /verif/gowp; see /verif/DESIGN.md for the contract language.
+package cmd
+
+//@ func (PointsList).AllEmpty
+//@   props C08 C09 C11
+//@   ensures iff: result <==> forall i :: 0 <= i && i < len(pl) ==> len(pl[i]) == 0
+//@ loop (PointsList).AllEmpty#0
+//@   invariant bounds: 0 <= iter && iter <= len(pl)
+//@   invariant empty: forall i :: 0 <= i && i < iter ==> len(pl[i]) == 0
+
+//@ func (TimeSeriesList).AllEqualTimeRangeAndStep
+//@   props C08 C09 C10 C16
+//@   ensures lens: len(tl) != len(ul) ==> !result
+//@   ensures iff: len(tl) == len(ul) ==> (result <==> forall i :: 0 <= i && i < len(tl) ==> sameShape(tl[i], ul[i]))
+//@ loop (TimeSeriesList).AllEqualTimeRangeAndStep#0
+//@   invariant bounds: 0 <= iter && iter <= len(tl) && len(tl) == len(ul)
+//@   invariant same: forall i :: 0 <= i && i < iter ==> sameShape(tl[i], ul[i])
+
+//@ spec tsFrom(ts *TimeSeries) int = ite(ts == nil, 0, ts.fromTime)
+//@ spec tsUntil(ts *TimeSeries) int = ite(ts == nil, 0, ts.untilTime)
+//@ spec tsStep(ts *TimeSeries) int = ite(ts == nil, 0, ts.step)
+//@ spec sameShape(a *TimeSeries, b *TimeSeries) bool = tsFrom(a) == tsFrom(b) && tsUntil(a) == tsUntil(b) && tsStep(a) == tsStep(b)
